@@ -457,8 +457,12 @@ LEVEL_TEXT = (
 LEVEL_NOTE = (
     'Clause-level claim. Trusted: third-party libraries (pjs, PyYAML, json, antlr4, py2neo); '
     'only explicit raise is exceptional control flow; must-alias = value identity after copy '
-    'propagation plus field disjointness. Unrecognised shapes in anchored functions give exit 2 '
-    '(ANALYSIS-INCOMPLETE), never a pass and never a VIOLATION.')
+    'propagation plus field disjointness. A clause whose construct is not in a shape the rule reads is '
+    'listed as unproven in the evidence (not a verdict: exit 0 unless something else is violated); an '
+    'anchored function that has vanished gives exit 2 (ANALYSIS-INCOMPLETE) - neither is ever a pass for '
+    'that clause, and neither is a VIOLATION. Decision tables (R17) compare canonical forms with reference '
+    'functions: tier A written from the property statements, tier B transcribed from the reviewed code of '
+    'one commit (a regression oracle for functions no structural rule pins down, DESIGN 12.11).')
 
 NOT_BUILT_REASON = {}
 
